@@ -22,6 +22,7 @@ type opSpec struct {
 	Fail   []string `json:"fail,omitempty"` // labels whose bodies fail in this build
 	Index  bool     `json:"prefer_index,omitempty"`
 	Twice  bool     `json:"run_twice,omitempty"`
+	DryNil bool     `json:"dry_then_nil_options,omitempty"` // on one loaded project: a dry run, (N=1: Reload,) then Run with nil options
 	N      int      `json:"n,omitempty"`
 }
 
@@ -44,8 +45,11 @@ func (p *projSpec) semanticItems() []string {
 	}
 	for i := range p.Targets {
 		for k, r := range p.Targets[i].Refs {
-			if r.Kind == "lit" || r.Kind == "default" || r.Kind == "freevar" {
+			if r.Kind == "lit" || r.Kind == "default" || r.Kind == "freevar" || r.Kind == "twins" || r.Kind == "cacheonce" {
 				out = append(out, fmt.Sprintf("ref|%s|%d", p.Targets[i].label(), k))
+			}
+			if r.Kind == "twins" {
+				out = append(out, fmt.Sprintf("ref2|%s|%d", p.Targets[i].label(), k))
 			}
 		}
 	}
@@ -89,6 +93,12 @@ func (p *projSpec) applySpecEdit(op *opSpec) bool {
 			if t != nil && k < len(t.Refs) {
 				bump(&t.Refs[k].Val, op.N)
 			}
+		case "ref2":
+			t := p.target(f[1])
+			k, _ := strconv.Atoi(f[2])
+			if t != nil && k < len(t.Refs) {
+				bump(&t.Refs[k].Val2, op.N)
+			}
 		case "const":
 			mi, _ := strconv.Atoi(f[1])
 			if mi < len(p.Modules) {
@@ -128,6 +138,43 @@ func (p *projSpec) applySpecEdit(op *opSpec) bool {
 			content := p.Files[old]
 			delete(p.Files, old)
 			p.Files[filepath.Join(filepath.Dir(old), fmt.Sprintf("renamed%d_%s", op.N, filepath.Base(old)))] = content
+		}
+	case "dir-move":
+		// move a file into another sub-directory of the source directory, keeping its base name
+		names := p.filesUnder(op.Path)
+		if len(names) > 0 {
+			old := names[op.N%len(names)]
+			content := p.Files[old]
+			dst := filepath.Join(op.Path, fmt.Sprintf("moved%d", op.N%3), filepath.Base(old))
+			if filepath.Dir(old) != filepath.Dir(dst) {
+				delete(p.Files, old)
+				p.Files[dst] = content
+			}
+		}
+	case "subdir-rename":
+		// rename a sub-directory of the source directory (contents and base names unchanged)
+		names := p.filesUnder(op.Path)
+		subs := map[string]bool{}
+		for _, n := range names {
+			rel := strings.TrimPrefix(n, op.Path+"/")
+			if i := strings.IndexByte(rel, '/'); i > 0 {
+				subs[rel[:i]] = true
+			}
+		}
+		var sl []string
+		for sname := range subs {
+			sl = append(sl, sname)
+		}
+		sort.Strings(sl)
+		if len(sl) > 0 {
+			old := sl[op.N%len(sl)]
+			for _, n := range names {
+				if strings.HasPrefix(n, op.Path+"/"+old+"/") {
+					content := p.Files[n]
+					delete(p.Files, n)
+					p.Files[op.Path+"/"+old+"_r"+strings.TrimPrefix(n, op.Path+"/"+old)] = content
+				}
+			}
 		}
 	case "dir-swap":
 		// swap the contents of two files of a directory: same multiset of contents, other names
@@ -284,7 +331,7 @@ func genSemanticEdit(r *rand.Rand, p *projSpec, serial int) *opSpec {
 			if len(dirs) == 0 {
 				continue
 			}
-			return &opSpec{Op: []string{"dir-add", "dir-remove", "dir-rename", "dir-swap"}[r.IntN(4)], Path: dirs[r.IntN(len(dirs))], N: serial}
+			return &opSpec{Op: []string{"dir-add", "dir-remove", "dir-rename", "dir-swap", "dir-move", "dir-move", "subdir-rename", "subdir-rename"}[r.IntN(8)], Path: dirs[r.IntN(len(dirs))], N: serial}
 		case 7:
 			var ts []string
 			for i := range p.Targets {
